@@ -882,7 +882,31 @@ def new_axes():
 
 @model("matplotlib.pyplot.subplots")
 def _subplots(fr, args, kwargs):
-    return (Opaque("figure"), new_axes())
+    if (kwargs.get("nrows", args[0] if args else 1), kwargs.get("ncols", args[1] if len(args) > 1 else 1)) != (1, 1):
+        raise Unsupported("plt.subplots with several panels")
+    ax = new_axes()
+    cur().memo["ghost:pyplot_current"] = ax      # a freshly created axes is pyplot's current axes
+    return (Opaque("figure"), ax)
+
+
+def _pyplot_draw(name):
+    """pyplot's state-machine functions act on pyplot's CURRENT axes: the one plt.subplots() made last in this function, or -
+    when the caller supplied the axes - some axes the function knows nothing about (a separate recorder, never the supplied one)"""
+    def m(fr, args, kwargs):
+        c = cur()
+        ax = c.memo.get("ghost:pyplot_current")
+        if ax is None:
+            ax = Obj("mpl.Axes", {"__recorder__": True, "calls": Seq(0, lambda k: None)})
+            c.memo["ghost:pyplot_current"] = ax
+            c.memo["ghost:pyplot_stray"] = ax
+        ax.fields["calls"].append((name, tuple(args), dict(kwargs)))
+        return Opaque("artist", name)
+    return m
+
+
+for _n in ("plot", "scatter", "errorbar", "semilogy", "loglog", "step", "fill_between", "bar", "stem", "vlines", "hlines", "axvline", "axhline",
+           "xlabel", "ylabel", "title", "legend", "xlim", "ylim", "grid", "text", "annotate"):
+    MODELS["matplotlib.pyplot." + _n] = _pyplot_draw({"xlabel": "set_xlabel", "ylabel": "set_ylabel", "title": "set_title", "xlim": "set_xlim", "ylim": "set_ylim"}.get(_n, _n))
 
 
 @model("matplotlib.pyplot.tight_layout", "matplotlib.pyplot.show", "matplotlib.pyplot.close")
@@ -911,3 +935,26 @@ def _install_pandas():
 
 
 _install_pandas()
+
+
+def _static_real(x):
+    """np.isrealobj(x) is a statement about the dtype (not the values): decided from the static kind of the value"""
+    if isinstance(x, Arr):
+        kind = x.kind
+    elif isinstance(x, (C, complex)):
+        kind = "complex"
+    elif isinstance(x, F) or is_int(x) or isinstance(x, (bool, int, float)):
+        kind = "float"
+    else:
+        raise Unsupported("isrealobj / iscomplexobj of a value whose dtype is not known statically")
+    return kind != "complex"
+
+
+@model("numpy.isrealobj")
+def m_isrealobj(fr, args, kwargs):
+    return _static_real(args[0])
+
+
+@model("numpy.iscomplexobj")
+def m_iscomplexobj(fr, args, kwargs):
+    return not _static_real(args[0])
